@@ -14,12 +14,15 @@ def vocab(tier, rng):
     from zeroconf import _dns as d
     from zeroconf import const as k
 
-    names = ["foo._http._tcp.local.", "Foo._HTTP._tcp.local.", "FOO._http._TCP.LOCAL.", "bar._http._tcp.local.", "日本._x._udp.local.", "é._x._udp.local."]
-    hosts = ["host.local.", "HOST.Local.", "other.local."]
+    # straße/strasse, ﬁsh/fish: distinct under str.lower() (the identity the property names) but merged by full case
+    # folding; no upper-case non-ASCII letter is used, so ASCII lowering (driver) and str.lower() agree on all of them
+    names = ["foo._http._tcp.local.", "Foo._HTTP._tcp.local.", "FOO._http._TCP.LOCAL.", "bar._http._tcp.local.", "日本._x._udp.local.",
+             "straße._x._udp.local.", "strasse._x._udp.local.", "é._x._udp.local.", "ﬁsh._x._udp.local.", "fish._x._udp.local.", "STRASSE._x._udp.local."]
+    hosts = ["host.local.", "HOST.Local.", "other.local.", "straße.local.", "strasse.local."]
     classes = [k._CLASS_IN, k._CLASS_IN | k._CLASS_UNIQUE, k._CLASS_ANY, k._CLASS_CS | k._CLASS_UNIQUE]
     ttls = [0, 1, 120, 4500]
     if tier != "thorough":
-        names = names[:4] + names[4:5]
+        names = names[:7]
         classes = classes[:3]
         ttls = [0, 120, 4500]
     recs = []
@@ -87,6 +90,7 @@ def run(ctx):
     if ctx["widened"]:
         budget *= 4
     n = len(recs)
+    group = max(1, n // len({r.name for r in recs}))
     # all pairs if they fit, else: all pairs (i, j) with j in a seeded sample
     pairs = []
     if n * n <= budget:
@@ -100,6 +104,9 @@ def run(ctx):
             # always include the near neighbours (same name group): one-field-at-a-time variants
             for j in range(max(0, i - 30), min(n, i + 30)):
                 js.add(j)
+            # ... and the same record under every other owner name (the records are built per name in one order)
+            for j in range(i % group, n, group):
+                js.add(j)
             pairs.extend((i, j) for j in sorted(js))
     lines = ["c20r %s %s" % (C.rec_line(recs[i]), C.rec_line(recs[j])) for i, j in pairs]
     qpairs = [(i, j) for i in range(len(qs)) for j in range(len(qs))]
@@ -110,7 +117,7 @@ def run(ctx):
             model = C.run_driver(lines)
         except C.DriverUnavailable as ex:
             res.notes.append("driver unavailable: %s" % ex)
-    res.rule = ("all ordered pairs over a vocabulary of %d records (names in 3 spellings + unrelated + non-ASCII, 7 kinds, classes with/without top bit, "
+    res.rule = ("all ordered pairs over a vocabulary of %d records (names in 3 spellings + unrelated + non-ASCII incl. pairs that only full case folding merges, 7 kinds, classes with/without top bit, "
                 "TTLs, rdata variants differing in one field) and %d questions; non-trivial = distinct (kind pair, which-fields-differ) signature "
                 "among pairs that are equal or differ in exactly one identity-relevant respect" % (n, len(qs)))
     for idx, (i, j) in enumerate(pairs):
